@@ -87,7 +87,10 @@ def run_bounded(prop, tier, seed, budget=None):
     cmd = [NATIVE_PY, '-m', 'bounded.run', prop, '--tier', tier, '--seed', str(seed), '--out', out]
     if budget: cmd += ['--budget', str(budget)]
     env = dict(os.environ); env['PYTHONDONTWRITEBYTECODE'] = '1'
-    r = subprocess.run(cmd, cwd=ROOT, capture_output=True, text=True, env=env)
+    try:
+        r = subprocess.run(cmd, cwd=ROOT, capture_output=True, text=True, env=env, timeout=1800 if tier == 'quick' else 4 * 3600)
+    except subprocess.TimeoutExpired:
+        return None, 'bounded stand-in did not finish within its wall-clock limit'
     if r.returncode != 0 or not os.path.exists(out):
         return None, (r.stderr or r.stdout)[-1500:]
     doc = json.load(open(out)); os.unlink(out)
